@@ -30,6 +30,9 @@ type Term struct {
 	Args []*Term
 	Idx  int
 	V    ssa.Value // the value this term describes (nil inside patterns)
+	// Alias: for a closure's captured variable that was resolved to the value bound in the enclosing function, the
+	// name a pattern may also use for it ("^name").
+	Alias string
 }
 
 func (t *Term) String() string {
@@ -319,6 +322,9 @@ func isConstIdent(s string) bool {
 
 // Match unifies pattern p with term t.
 func Match(p, t *Term, env map[string]*Term) bool {
+	if p.Op == "param" && t.Alias != "" && p.Name == t.Alias {
+		return true
+	}
 	switch p.Op {
 	case "wild":
 		return true
@@ -413,6 +419,36 @@ func Match(p, t *Term, env map[string]*Term) bool {
 		if n == 2 && commutative(t.Name) {
 			restoreEnv(env, snap)
 			if Match(p.Args[0], t.Args[1], env) && Match(p.Args[1], t.Args[0], env) {
+				return true
+			}
+		}
+		if p.Op == "phi" && n >= 2 && n <= 4 {
+			// the alternatives of a control-flow join are a set: their order follows block layout (if/else inversion)
+			perm := make([]int, n)
+			used := make([]bool, n)
+			var try func(i int) bool
+			try = func(i int) bool {
+				if i == n {
+					return true
+				}
+				for j := 0; j < n; j++ {
+					if used[j] {
+						continue
+					}
+					s2 := copyEnv(env)
+					if Match(p.Args[i], t.Args[j], env) {
+						used[j], perm[i] = true, j
+						if try(i + 1) {
+							return true
+						}
+						used[j] = false
+					}
+					restoreEnv(env, s2)
+				}
+				return false
+			}
+			restoreEnv(env, snap)
+			if try(0) {
 				return true
 			}
 		}
